@@ -164,7 +164,8 @@ def http_response(rng, body=None, ctype=None, location=None):
     close = False
     wire_body = payload
     if framing in ('length', 'both'):
-        cl = rng.choice([str(len(payload))] * 6 + ['-1', 'x', '', '1e3', str(len(payload) + 5), str(max(0, len(payload) - 3)), '9' * 30, '0x10', ' 5 ', '+5', '５'])
+        cl = rng.choice([str(len(payload))] * 6 + ['-1', 'x', '', '1e3', str(len(payload) + 5), str(max(0, len(payload) - 3)), '9' * 30, '0x10', ' 5 ', '+5', '５',
+                                                   '\xb2', '1\xb2', '\xb9\xb2\xb3', '1' * 4400, '0' * 5000 + '5', '1_0', '١٢', '\xbc'])   # isdigit()/isdecimal()/int() disagree on these
         hdrs.append(('Content-Length', cl))
     if framing in ('chunked', 'both'):
         hdrs.append(('Transfer-Encoding', rng.choice(['chunked', 'chunked', 'Chunked', 'gzip, chunked', 'identity'])))
@@ -247,8 +248,27 @@ UNIX_LINES = ['-rw-r--r-- 1 u g 3 Jan 01 2020 a.txt', 'drwxr-xr-x 2 u g 4096 Jan
               '-rw-r--r-- 1 u g 3 Foo 01 2020 m', '-rw-r--r--', '-rw-r--r-- 1 u g 3 Jan', 'drwxr-xr-x 2 u g 4096 Jan 01 00:00']
 
 
+# entry names a server may hold: bytes that are not UTF-8 (arrive as lone surrogates), URL-special characters,
+# path tricks, control characters
+ODD_NAMES = ['caf\udce9.txt', '\udcff\udcfe', 'na\udcefve dir', 'issue #1?.txt', '100%.txt', '%2e%2e', 'a b', 'a\tb', '..', '.', '/etc/passwd', 'x/../y',
+             'a;type=i', 'sp ace ', '\u202e', 'x' * 300, '-> y', 'a\x7f', '\x01']
+WELL_FORMED = {'unix': ['-rw-r--r-- 1 u g 3 Jan 01 2020 %s', 'drwxr-xr-x 2 u g 4096 Jan 01 00:00 %s', 'lrwxrwxrwx 1 u g 1 Jan 1 2020 %s -> t'],
+               'msdos': ['01-01-20  12:00PM  123 %s', '01-01-20  12:00AM       <DIR>          %s'],
+               'mlsd': ['type=file;size=3;modify=20200101000000; %s', 'type=dir; %s', 'Type=file; %s']}
+
+
+def odd_entry(rng, style):
+    return rng.choice(WELL_FORMED[style]) % rng.choice(ODD_NAMES)
+
+
 def ftp_listing(rng, mlsd):
     lines = []
+    if rng.random() < 0.25:
+        # a perfectly well-formed listing whose only oddity is in the entry names
+        style = 'mlsd' if mlsd else rng.choice(['unix', 'msdos'])
+        lines = [odd_entry(rng, style) for _ in range(rng.randint(1, 4))] + [rng.choice(WELL_FORMED[style]) % 'plain.txt']
+        rng.shuffle(lines)
+        return ('\r\n'.join(lines) + '\r\n').encode('utf-8', 'surrogateescape')
     style = rng.choice(['mixed', 'msdos', 'unix', 'msdos', 'unix'])
     if not mlsd and style != 'mixed':
         # a listing in ONE style (that is what makes the parser choose that style), short lines included
